@@ -37,6 +37,58 @@ Qed.
 Theorem C10_loops_exit : forallb (fun p => loops_exit (snd p)) table = true.
 Proof. vm_compute. reflexivity. Qed.
 
+(* ---- the drive manager itself (pkg/tape/manager.go, regenerated like everything else): the hand-written
+   primitives prim.GetReader / prim.GetWriter / prim.Close used for the callers above say "a successful Get
+   holds the drive, a failed one holds nothing, Close releases it".  The manager's own skeleton is checked against
+   exactly that: on every path GetReader and GetWriter return successfully holding the drive and nothing else, or
+   fail holding nothing; Close, entered with the drive held, releases it on every path.  (A Get that can succeed
+   without taking the drive - sharing the open reader of another owner - makes the later Close release a lock it
+   does not hold: "sync: unlock of unlocked mutex", known_findings.json fixed: C14 tape manager.) *)
+Definition drive_only : N := 8.
+Definition mgr_get_exit (x : exit) (q : N) : bool :=
+  (q =? DEAD)%N ||
+  (negb (q =? ERR)%N &&
+   match x with
+   | XR KOk => (N.land q lock_mask =? drive_only)%N
+   | XR KErr => (N.land q lock_mask =? 0)%N
+   | _ => false
+   end).
+Definition mgr_close_exit (x : exit) (q : N) : bool :=
+  (q =? DEAD)%N || (negb (q =? ERR)%N && (N.land q lock_mask =? 0)%N).
+Definition mgr_getters : list string := ["tape.TapeManager.GetReader"; "tape.TapeManager.GetWriter"].
+
+Theorem C10_drive_manager_get :
+  forallb (check table prims_fixed (mstep flags allow_spawn) 40 40 mgr_get_exit 0%N) mgr_getters = true.
+Proof. vm_compute. reflexivity. Qed.
+Theorem C10_drive_manager_close :
+  check table prims_fixed (mstep flags allow_spawn) 40 40 mgr_close_exit drive_only "tape.TapeManager.Close" = true.
+Proof. vm_compute. reflexivity. Qed.
+
+Theorem C10_drive_manager_get_sem : forall f, List.In f mgr_getters ->
+  exists body, lookup f table = Some body /\
+    forall t x, exec (prog table prims_fixed) body t x -> is_fn_exit x = true ->
+      mgr_get_exit x (mrun (mstep flags allow_spawn) 0%N t) = true.
+Proof.
+  intros f Hf. apply check_sound with (fuel := 40%nat) (lfuel := 40%nat).
+  pose proof C10_drive_manager_get as H. rewrite forallb_forall in H. exact (H f Hf).
+Qed.
+Theorem C10_drive_manager_close_sem :
+  exists body, lookup "tape.TapeManager.Close" table = Some body /\
+    forall t x, exec (prog table prims_fixed) body t x -> is_fn_exit x = true ->
+      mgr_close_exit x (mrun (mstep flags allow_spawn) drive_only t) = true.
+Proof. apply check_sound with (fuel := 40%nat) (lfuel := 40%nat). exact C10_drive_manager_close. Qed.
+
+(* non-vacuity: the manager's entries are in the regenerated table, and the check does reject a getter that may
+   return successfully without the drive (the leaky primitive) *)
+Example C10_drive_manager_nonvacuous :
+  lookup "tape.TapeManager.GetReader" table <> None /\ lookup "tape.TapeManager.openOrReuseReader" table <> None /\
+  lookup "tape.TapeManager.Close" table <> None /\
+  check [("leaky", Choice (Seq (EV (Lk "drive")) (RT KOk)) (RT KOk))] [] (mstep flags allow_spawn) 40 40 mgr_get_exit 0%N "leaky" = false.
+Proof. vm_compute. repeat split; discriminate. Qed.
+
+Print Assumptions C10_drive_manager_get_sem.
+Print Assumptions C10_drive_manager_close_sem.
+
 (* non-vacuity: the entry list is not empty and contains the mutators *)
 Example C10_nonvacuous :
   List.In "fs.STFS.RemoveAll" C10_entries /\ List.In "operations.Operations.Delete@W" C10_entries /\
